@@ -36,7 +36,7 @@ COMPONENTS = {
 
 
 def configs(tier):
-    return [{"spake": "real" if i == 0 else "stub",
+    return [{"spake": "real" if i == 0 else "stub", "reentrant": i % 3 == 1,
              "uplink_loss": i in (2, 5, 7),
              # the server replays / forwards stored messages in any order
              "reorder_heavy": i in (3, 6),
